@@ -119,7 +119,7 @@ def kani_cmd(plan, wdir, extra):
 MEM_GB_DEFAULT = {"quick": 12, "thorough": 32}   # thorough: kani-driver itself holds every check of thousands of harnesses for the JSON export
 
 
-THOROUGH_CAP = int(os.environ.get("VERIF_THOROUGH_CAP", "2400"))
+THOROUGH_CAP = int(os.environ.get("VERIF_THOROUGH_CAP", "1200"))
 
 
 def select_budget(plan, tier, seed):
